@@ -48,6 +48,15 @@ def generate(seed, tier):
             scn['config']['short'] = 'cap'
         extra['fault'] = True
     elif name == 'tcp':
+        if sub.get('family') == 'session' and g.chance(0.4):
+            # bytes trickle over TCP: each piece arrives within the transport timeout, the whole packet does not
+            tt = 2.0
+            for op in scn['actors'][0]:
+                op['tt'] = tt
+                op['rt'] = 6.0
+            scn['device']['stall'] = {'after_pkts': g.int(1, 8), 'kind': 'trickle', 'interval': g.pick([0.3, 0.9]) * tt, 'cmdword': 0}
+            scn['config']['idle_cost'] = 0.05
+            extra['fault'] = True
         if sub.get('family') != 'session':
             name, mod = 'C04', C04
             sub = mod.generate(g.int(0, 1 << 60), tier)
